@@ -276,29 +276,8 @@ def run_case(c):
           "changepin": changepin.do_changepin, "pubkeys": pubkeys.do_get_pubkeys}[cmd]
     if c.get("via") == "program":
         # the command as an operator runs it: adm_ledger.py / adm_sgx.py with a command line
-        import adm_ledger
-        import adm_sgx
-        argv = [cmd]
-        if opt_pin is not None:
-            argv += ["-p" if plat == "Ledger" else "-P", opt_pin]
-        if c["any_pin"]:
-            argv.append("-a")
-        if c.get("no_unlock"):
-            argv.append("-u")
-        if opts.new_pin is not None:
-            argv += ["-n", opts.new_pin]
-        argv += ["-o", opts.output_file_path]
-
-        def fn(_):
-            saved_argv = sys.argv
-            sys.argv = ["adm"] + argv
-            try:
-                (adm_ledger if plat == "Ledger" else adm_sgx).main()
-            except SystemExit as e:
-                if e.code not in (0, None):
-                    raise misc.AdminError("exit status %r" % (e.code,))
-            finally:
-                sys.argv = saved_argv
+        from vlib.programs import as_program
+        fn = as_program(fn, opts, plat == "Ledger")
     out = io.StringIO()
     exc = None
     saved_stdin = sys.stdin
@@ -314,6 +293,8 @@ def run_case(c):
     try:
         with contextlib.redirect_stdout(out):
             fn(opts)
+    except HarnessError:
+        raise
     except Exception as e:   # noqa
         exc = e
     except OperatorGone as e:
